@@ -882,13 +882,13 @@ public:
 
         if(_clearProps) {
             clear_all_props();
-        } else {
-            // Resize props
-            resize_vprops(0u);
-            resize_eprops(0u);
-            resize_fprops(0u);
-            resize_cprops(0u);
         }
+        // Resize props: properties that are still in use (also those that
+        // were just made private) must have one element per entity
+        resize_vprops(0u);
+        resize_eprops(0u);
+        resize_fprops(0u);
+        resize_cprops(0u);
     }
 
     //=====================================================================
